@@ -107,15 +107,20 @@ structure Cfg where
   locked : Bool
   /-- retention constant of `clean` in ms -/
   window : Nat
+  /-- `SendBundle` numbers through `IdKeeper.updateUnless(bndl, "is this ID in the store")`: inside the
+      critical section the counter is incremented while the bundle's ID is taken (/repo 43cf7bc). -/
+  skipKnown : Bool
 deriving Repr, DecidableEq
 
-def Cfg.code : Cfg := ⟨true, true, 86400000⟩
+def Cfg.code : Cfg := ⟨true, true, 86400000, true⟩
+/-- Before /repo 43cf7bc: the number of the counter is used as it is. -/
+def Cfg.noSkip : Cfg := ⟨true, true, 86400000, false⟩
 /-- Before the D17 repair: descriptor first. -/
-def Cfg.descriptorFirst : Cfg := ⟨false, true, 86400000⟩
+def Cfg.descriptorFirst : Cfg := ⟨false, true, 86400000, false⟩
 /-- Before the D18 repair: `60*60*24` compared with milliseconds. -/
-def Cfg.window86s : Cfg := ⟨true, true, 86400⟩
+def Cfg.window86s : Cfg := ⟨true, true, 86400, false⟩
 /-- A hypothetical `update` that does not take the mutex. -/
-def Cfg.unlocked : Cfg := ⟨true, false, 86400000⟩
+def Cfg.unlocked : Cfg := ⟨true, false, 86400000, false⟩
 
 /-- One submission (a call of `Core.SendBundle`). -/
 structure Sub where
@@ -174,11 +179,27 @@ def bundleOf (subs : Nat → Sub) (n : Node) (i : Nat) : Bundle := ⟨idOf subs 
 
 def knows (store : List (BundleId × Bundle)) (id : BundleId) : Bool := store.any (fun e => e.1 = id)
 
+/-- The loop of `IdKeeper.updateUnless`: the first number from `v` on whose bundle ID is not in the store
+(`fuel` rounds at most; `store.length + 1` rounds always reach one, `Dtn7.IdKeeper.Lemmas.firstFree_free`). -/
+def firstFree (store : List (BundleId × Bundle)) (k : Key) : Nat → Nat → Nat
+  | 0, v => v
+  | fuel + 1, v => if knows store ⟨k.source, k.time, v⟩ then firstFree store k fuel (v + 1) else v
+
+/-- The number written into the bundle: `bndl…[1] = idk.data[tpl]`, and with `skipKnown` the loop
+`for taken(bndl.ID()) { idk.data[tpl]++; bndl…[1] = idk.data[tpl] }` in the same critical section. It is one
+step of the model: no other `update`/`clean` can interleave (mutex); a `push` of another submission in
+between has the same effect as one before or after the loop, because the loop passes each number once,
+upwards, and this store never forgets a key. -/
+def stampSeq (c : Cfg) (n : Node) (k : Key) : Nat :=
+  if c.skipKnown then firstFree n.store k (n.store.length + 1) ((n.keeper k).getD 0) else (n.keeper k).getD 0
+
 def exec (c : Cfg) (subs : Nat → Sub) (n : Node) (i : Nat) : Instr → Node
   | .lock => if n.holder = none then { n.bump i with holder := some i } else n
   | .read => n.setTh i { n.th i with pc := (n.th i).pc + 1, reg := n.keeper (subs i).key }
   | .write => { n.bump i with keeper := n.keeper.set (subs i).key (nextOf (n.th i).reg) }
-  | .stamp => n.setTh i { n.th i with pc := (n.th i).pc + 1, seq := (n.keeper (subs i).key).getD 0 }
+  | .stamp =>
+    { n.setTh i { n.th i with pc := (n.th i).pc + 1, seq := stampSeq c n (subs i).key } with
+      keeper := if c.skipKnown then n.keeper.set (subs i).key (stampSeq c n (subs i).key) else n.keeper }
   | .unlock => { n.bump i with holder := none }
   | .clean =>
     -- `clean` takes the mutex for its single access: it cannot run inside another thread's critical section
